@@ -177,9 +177,7 @@ char *xvu_strcpy64(char *dst, const char *src)
 #define XVU_C1(k) if ((k) <= n) t.b[k] = src[k]
 #define XVU_C8(k) XVU_C1(k); XVU_C1((k) + 1); XVU_C1((k) + 2); XVU_C1((k) + 3); XVU_C1((k) + 4); XVU_C1((k) + 5); XVU_C1((k) + 6); XVU_C1((k) + 7)
     XVU_C8(0); XVU_C8(8); XVU_C8(16); XVU_C8(24); XVU_C8(32); XVU_C8(40); XVU_C8(48); XVU_C8(56);
-#ifndef XVU_X5
     *(struct xvu_b64 *)dst = t;
-#endif
     return dst;
 }
 /* strncmp(a, "ctl-", 4): exact, unrolled (a is a C string: comparison stops at its NUL) */
@@ -582,11 +580,8 @@ ssize_t recv(int fd, void *buf, size_t len, int flags)
      * xcmc.c is a struct ctl_proto_msg).  One unconditional write = one new SSA version of the 38 KB object; a write under
      * a condition costs a 300 000-bit if-then-else at every join behind it, and havoc_slice re-assembles the struct from
      * a byte array (2 M variables / 7 M clauses). */
-#ifndef XVU_X4
     if (len == sizeof(struct ctl_proto_msg)) { struct ctl_proto_msg any; *(struct ctl_proto_msg *)buf = any; }
-    else
-#endif
-    if (len > 0) __CPROVER_havoc_slice(buf, len);
+    else if (len > 0) __CPROVER_havoc_slice(buf, len);
     if (nondet_bool()) {
         xv_errno = xv_any_errno();     /* EAGAIN (receive timeout), ECONNRESET, EINTR, ... */
         xv_recv_errno = xv_errno; xv_recv_ret = -1;
@@ -605,10 +600,14 @@ ssize_t recv(int fd, void *buf, size_t len, int flags)
         xvu_rx.value_type = (int)m->get_attr_cfm.attr.value_type;
         xvu_rx.value_len = m->get_attr_cfm.attr.value_len;
         xvu_rx.attrs_len = m->get_all_attr_cfm.attrs_len;
-        xvu_rx.val_mc = 0;
-#ifndef XVU_X2
-        if (xv_mc < CTL_ATTR_VALUE_MAX) xvu_rx.val_mc = ((const struct ctl_proto_msg *)buf)->get_attr_cfm.attr.any_value[xv_mc];   /* typed read */
+        /* case split of job xcmc_attr_get_all over the attribute count the peer put on the wire (its two variants together cover every count) */
+#if defined(XVU_ATTRS_SMALL)
+        __CPROVER_assume(xvu_rx.attrs_len <= CTL_PROTO_MAX_ATTRS);
+#elif defined(XVU_ATTRS_BIG)
+        __CPROVER_assume(xvu_rx.attrs_len > CTL_PROTO_MAX_ATTRS);
 #endif
+        xvu_rx.val_mc = 0;
+        if (xv_mc < CTL_ATTR_VALUE_MAX) xvu_rx.val_mc = ((const struct ctl_proto_msg *)buf)->get_attr_cfm.attr.any_value[xv_mc];   /* typed read */
     }
     return (ssize_t)xv_recv_ret;
 }
@@ -622,11 +621,7 @@ void *xvu_memcpy_val(void *dst, const void *src, size_t n)
     __CPROVER_assume(n == 0 || (__CPROVER_r_ok(src, n) && __CPROVER_w_ok(dst, n)));
     const uint8_t (*a)[CTL_ATTR_VALUE_MAX] = src; uint8_t *d_ = dst;
     uint8_t h0 = (*a)[0], h1 = (*a)[1], h2 = (*a)[2], h3 = (*a)[3], h4 = (*a)[4], h5 = (*a)[5], h6 = (*a)[6], h7 = (*a)[7];
-#ifndef XVU_X3
     _Bool g = xv_mc < n && xv_mc < CTL_ATTR_VALUE_MAX; uint8_t bg = g ? (*a)[xv_mc] : 0;
-#else
-    _Bool g = 0; uint8_t bg = 0;
-#endif
     if (n > 0) __CPROVER_havoc_slice(dst, n);
     if (0 < n) d_[0] = h0; if (1 < n) d_[1] = h1; if (2 < n) d_[2] = h2; if (3 < n) d_[3] = h3;
     if (4 < n) d_[4] = h4; if (5 < n) d_[5] = h5; if (6 < n) d_[6] = h6; if (7 < n) d_[7] = h7;
